@@ -228,7 +228,7 @@ structure Opts where
   nOpts : Nat          -- after the vbtol adjustment
   needVbtol : Bool
   vbtol : Bytes
-  deriving Repr
+  deriving Repr, DecidableEq
 
 def Opts.z (o : Opts) (i : Nat) : Int := o.opts.getD (o.nOpts + 1 + i) 0
 
@@ -249,15 +249,20 @@ def readIntLines : Nat → Bytes → Except Code (List Int × Bytes)
       | .error c => .error c
       | .ok (vs, r2) => .ok (v :: vs, r2)
 
+/-- option-count check (3..9) and the vbtol flag (`Options[2] == 3`): `none` = "expected nOpts between 3 and 9",
+else (nOpts after the vbtol adjustment, need_vbtol).  Tied to the source by `C14_gen_opts_header`. -/
+def optHeader (o0 o2 : Int) : Option (Nat × Bool) :=
+  if o0 < 3 ∨ o0 > 9 then none
+  else if o2 = 3 then some (o0.toNat - 2, true) else some (o0.toNat, false)
+
 /-- text: after `Options\n` -/
 def optsText (inp : Bytes) : Except Code (Opts × Bytes) :=
   match readIntLines 4 inp with
   | .error c => .error c
   | .ok (o4, r) =>
-    let n0 := o4.getD 0 0
-    if n0 < 3 ∨ n0 > 9 then .error .badFormat else
-    let vb : Bool := o4.getD 2 0 = 3
-    let nOpts := if vb then n0.toNat - 2 else n0.toNat
+    match optHeader (o4.getD 0 0) (o4.getD 2 0) with
+    | none => .error .badFormat
+    | some (nOpts, vb) =>
     match readIntLines (nOpts + 1) r with
     | .error c => .error c
     | .ok (more, r2) =>
@@ -288,10 +293,9 @@ def optsBin (L : Nat) (inp : Bytes) : Except Code (Opts × Bytes) :=
     else
     let o4 := i32s 4 r
     let r := r.drop 16
-    let n0 := o4.getD 0 0
-    if n0 < 3 ∨ n0 > 9 then .error .badFormat else
-    let vb : Bool := o4.getD 2 0 = 3
-    let nOpts := if vb then n0.toNat - 2 else n0.toNat
+    match optHeader (o4.getD 0 0) (o4.getD 2 0) with
+    | none => .error .badFormat
+    | some (nOpts, vb) =>
     if r.length < 4 then .error .earlyEof else
     if r.length < 4 * (nOpts + 1) then
       -- partial read: stream at EOF; next read fails
@@ -525,9 +529,16 @@ def expectLen (L1 : Nat) (inp : Bytes) : Option Bytes :=
 
 def u32 (x : Nat) : Nat := x % 4294967296
 
+/-- binary: record length (`uiolen`) of a vector of `j` reals, `L1 = j * sizeof(real)`; tied to the source by `C14_gen_rec_len` -/
+def recLen (j : Nat) : Nat := u32 (j * 8)
+
+/-- binary: does a record of length `L` announce an Options block (`L2 = L - (8*sizeof(Long)+7)` in `uiolen` arithmetic,
+`L2 <= 4*sizeof(Long)+sizeof(real) && !(L2 & (sizeof(Long)-1))`); tied to the source by `C14_gen_is_opts_record` -/
+def isOptsRecord (L : Nat) : Bool := u32 (L + 4294967296 - 39) ≤ 24 && u32 (L + 4294967296 - 39) % 4 = 0
+
 /-- binary: closing record length of the primal vector, then the objno/suffix tail -/
 def afterPrimalBin (fx : Bool) (pol : Policy) (i : Nat) (inp : Bytes) : Result :=
-  match expectLen (u32 (i * 8)) inp with
+  match expectLen (recLen i) inp with
   | none => err .badFormat
   | some inp => binTail fx pol inp
 
@@ -545,10 +556,10 @@ def primalPart (fx : Bool) (pol : Policy) (binary : Bool) (i : Nat) (inp : Bytes
 /-- binary: closing length of the dual record and opening length of the primal record -/
 def afterDual (fx : Bool) (pol : Policy) (binary : Bool) (j i : Nat) (inp : Bytes) : Result :=
   if binary then
-    match expectLen (u32 (j * 8)) inp with
+    match expectLen (recLen j) inp with
     | none => err .badFormat
     | some inp =>
-      match expectLen (u32 (i * 8)) inp with
+      match expectLen (recLen i) inp with
       | none => err .badFormat
       | some inp => primalPart fx pol true i inp
   else primalPart fx pol false i inp
@@ -575,7 +586,7 @@ def preCheck (fm : Bool) (nVars nCons : Nat) (pol : Policy) (binary : Bool) (o :
     if binary then
       match readU32 inp with
       | none => .error (err .earlyEof)
-      | some (L, r) => if L ≠ u32 (nc.toNat * 8) then .error (err .badFormat) else .ok (nc.toNat, nv.toNat, r)
+      | some (L, r) => if L ≠ recLen nc.toNat then .error (err .badFormat) else .ok (nc.toNat, nv.toNat, r)
     else .ok (nc.toNat, nv.toNat, inp)
 
 def optEvent (o : Option Opts) (r : Result) : Result :=
@@ -628,12 +639,11 @@ def readBin (fx fm : Bool) (nVars nCons : Nat) (pol : Policy) (inp : Bytes) : Re
     match readU32 inp with
     | none => err .earlyEof
     | some (L, inp) =>
-      let L2 := u32 (L + 4294967296 - 39)
-      if L2 ≤ 24 ∧ L2 % 4 = 0 then
+      if isOptsRecord L then
         match optsBin L inp with
         | .error c => err c
         | .ok (o, inp) => msgEvent true st (body fx fm nVars nCons pol true (some o) inp)
-      else if L ≠ u32 (nCons * 8) then err .badFormat
+      else if L ≠ recLen nCons then err .badFormat
       else msgEvent true st (body fx fm nVars nCons pol true none inp)
 
 /-- `mp::ReadSOLFile` on a file with the given contents (the file exists) -/
